@@ -966,18 +966,33 @@ class TorConfig:
         # FIXME might want to re-think this, but currently there's no
         # way to put things into a config and get them out again
         # nicely...unless you just don't assign a protocol
+        # remember what we are sending (lists by content too, since
+        # they can be changed in place while the SETCONF is in flight)
+        sent = [
+            (key, value, list(value) if isinstance(value, list) else None)
+            for (key, value) in self.unsaved.items()
+        ]
         if self.protocol:
             d = self.protocol.set_conf(*args)
-            d.addCallback(self._save_completed)
+            d.addCallback(self._save_completed, sent)
             return d
 
         else:
-            self._save_completed()
+            self._save_completed(None, sent)
             return defer.succeed(self)
 
-    def _save_completed(self, *args):
+    def _save_completed(self, _ignored=None, sent=None):
         '''internal callback'''
-        self.__dict__['unsaved'] = {}
+        if sent is None:
+            self.__dict__['unsaved'] = OrderedDict()
+            return self
+        # anything changed while the SETCONF was outstanding is still
+        # unsaved
+        unsaved = self.__dict__['unsaved']
+        for (key, value, snapshot) in sent:
+            if key in unsaved and unsaved[key] is value and \
+               (snapshot is None or list(value) == snapshot):
+                del unsaved[key]
         return self
 
     def _find_real_name(self, name):
